@@ -971,6 +971,16 @@ class Unit:
                 sep = "" if (n["nargs"] == 0 or n["trailing"]) else ", "
                 eds.append((n["close"], n["close"], sep + garg, None))
                 self._log("E4", src, n["close"], "", garg)
+        # E17: in a unit where a panic IS the specified behaviour ("refuses to start"), `x.unwrap()` /
+        # `x.expect(..)` is written `x.unwrap_or_refuse()`: an env method with the same value on
+        # Some / Ok and no normal return otherwise (postcondition `self is Some`), so that the contract
+        # can tell "panics" from "goes on with some other value" (Verus itself continues after a
+        # failed precondition of unwrap with an arbitrary value)
+        if getattr(self, "refusing_unwrap", False):
+            for n in sub:
+                if n["k"] == "mcall" and n["name"] in ("unwrap", "expect"):
+                    eds.append((n["method"][0], n["close"] + 1, "unwrap_or_refuse()", None))
+                    self._log("E17", src, n["method"][0], "." + n["name"] + "(..)", ".unwrap_or_refuse()")
         eds += self._inline_edits(src, {"nodes": sub, "sig": it.get("sig"), "is_slice": True}, key, depth=0)
         if wrap_return:
             for n in sub:
